@@ -266,9 +266,13 @@ def a4(rep, M):
     # token-mode start: every non-fragment rule is reachable from the mode start, no fragment is
     ms = A.states[A.modes[0]] if A.modes else None
     if ms:
-        starts = sorted(A.states[t.dst].rule for t in ms.trans)
+        starts = [A.states[t.dst].rule for t in ms.trans]
         want = [i for i, r in enumerate(G.lrules) if not r.fragment]
-        rep.check(starts == want, "C14.A4", "lexer mode start", "the mode start state offers exactly the non-fragment rules", "got %r" % starts)
+        rep.check(sorted(starts) == want, "C14.A4", "lexer mode start", "the mode start state offers exactly the non-fragment rules", "got %r" % sorted(starts))
+        first = next((k for k, (x, y) in enumerate(zip(starts, want)) if x != y), None)
+        rep.check(starts == want, "C14.A4", "lexer mode start order", "the mode start state offers the token rules in grammar order (the simulator resolves equal-length matches in favour of the earlier alternative)",
+                  "position %s: ATN offers %s where the grammar has %s" % (first, G.lrules[starts[first]].name if first is not None and starts[first] < len(G.lrules) else "?",
+                                                                       G.lrules[want[first]].name if first is not None else "?"), key="mode start order")
 
 
 # ---------------------------------------------------------------- A5 wiring of the generated Python classes
